@@ -149,6 +149,32 @@ func checkC08(c WKCase, st *stats.Collector) error {
 		if info.Header == nil || info.Header.Profile != w.Profile || info.Header.Library != expectedLibrary(w, k) {
 			return pk.Failf("info-header", "Info.Header = %s", pk.Short(info.Header))
 		}
+		// Info describes the file, not the reads made before it: a Reader that first served a
+		// topic- and time-restricted read must list the same things afterwards.
+		if chans := w.Channels(); len(chans) > 0 {
+			rd2, err := mcap.NewReader(bytes.NewReader(file))
+			if err != nil {
+				return pk.Failf("info", "NewReader: %v", err)
+			}
+			if it, err := rd2.Messages(mcap.WithTopics([]string{chans[len(chans)-1].Topic}), mcap.AfterNanos(ms.MinTime+1)); err == nil {
+				for i := 0; i < 3; i++ {
+					if _, _, _, err := it.NextInto(nil); err != nil {
+						break
+					}
+				}
+			}
+			info2, err := rd2.Info()
+			if err != nil {
+				return pk.Failf("info", "Info after a restricted read: %v", err)
+			}
+			if len(info2.Channels) != len(info.Channels) || len(info2.Schemas) != len(info.Schemas) || len(info2.ChunkIndexes) != len(info.ChunkIndexes) ||
+				len(info2.AttachmentIndexes) != len(info.AttachmentIndexes) || len(info2.MetadataIndexes) != len(info.MetadataIndexes) ||
+				(info2.Statistics == nil) != (info.Statistics == nil) || (info2.Statistics != nil && aggrOfStats(info2.Statistics) != want) {
+				return pk.Failf("info-after-read", "after a topic/time-restricted read on the same Reader, Info lists %d channels, %d schemas, %d chunk indexes, %d/%d attachment/metadata indexes; a fresh Reader lists %d, %d, %d, %d/%d",
+					len(info2.Channels), len(info2.Schemas), len(info2.ChunkIndexes), len(info2.AttachmentIndexes), len(info2.MetadataIndexes),
+					len(info.Channels), len(info.Schemas), len(info.ChunkIndexes), len(info.AttachmentIndexes), len(info.MetadataIndexes))
+			}
+		}
 	}
 	// classification
 	msgs := w.Messages()
